@@ -60,3 +60,26 @@ Theorem C08_freed_slot_wakes_one_waiter : forall s i x r, waiting s = x :: r -> 
 Proof. intros s i x r W. unfold remove_at, signal_one. simpl. rewrite W. simpl. split; reflexivity. Qed.
 Print Assumptions C08_freed_slot_wakes_one_waiter.
 
+
+(* a listener that takes its time (user code called from the loop): while it runs the loop does nothing else, time
+   cannot pass the instant at which it returns, and at that instant the loop is idle again with every pending flush
+   request, pause request and tick still there — so a Flush() made meanwhile starts a cycle the moment the loop is
+   free (C08_flush_is_prompt applies to the idle loop) *)
+Theorem C08_busy_listener_blocks_only_the_loop : forall c s l s' o x t,
+  loop s = LBusy t -> step c s l = Some (s', o) -> In x o ->
+  is_batch x = false /\ is_giveme x = false /\ is_audit x = false.
+Proof. exact busy_quiet. Qed.
+Print Assumptions C08_busy_listener_blocks_only_the_loop.
+
+Theorem C08_busy_listener_returns_on_time : forall c s t t' s' o,
+  loop s = LBusy t -> step c s (TAdvance t') = Some (s', o) -> t' <= t /\ loop s' = LBusy t.
+Proof. exact busy_time. Qed.
+Print Assumptions C08_busy_listener_returns_on_time.
+
+Theorem C08_nothing_lost_while_listener_runs : forall c s s' o,
+  step c s ILoopUnbusy = Some (s', o) ->
+  exists t, loop s = LBusy t /\ t = now s /\ loop s' = LIdle /\ o = []
+    /\ flush_tok s' = flush_tok s /\ pause_tok s' = pause_tok s /\ stop_req s' = stop_req s
+    /\ tk_flush s' = tk_flush s /\ tk_cap s' = tk_cap s /\ tk_audit s' = tk_audit s /\ buffer s' = buffer s.
+Proof. exact unbusy_effect. Qed.
+Print Assumptions C08_nothing_lost_while_listener_runs.
